@@ -80,7 +80,8 @@ func (h *Authorization) Unmarshal(v base.HeaderValue) error {
 			return fmt.Errorf("invalid value")
 		}
 
-		tmp2 := strings.Split(string(tmp), ":")
+		// the password can contain colons, the username cannot (RFC 7617)
+		tmp2 := strings.SplitN(string(tmp), ":", 2)
 		if len(tmp2) != 2 {
 			return fmt.Errorf("invalid value")
 		}
